@@ -305,6 +305,7 @@ harness(void)
 		kquiesce();
 		CHECK(KDONE(0) && KRESULT(0) == NNG_ECANCELED && env_aio_completed(&uaio_at(0)) == 1, "cancelling the send in progress aborts the transfer and completes the send once with ECANCELED");
 		CHECK(nni_aio_get_msg(&uaio_at(0)) == m0 && env_msg_live == live0, "the message of a failed send stays with the caller (not freed by the transport)");
+		CHECK(s_send_aio == NULL, "the write in progress has been aborted: the stream no longer refers to the caller's message once the send has completed");
 		CHECK(!(KDONE(1) && KRESULT(1) == 0), "the send queued behind it is not reported successful (nothing of it was written)");
 		WITNESS("send in progress cancelled");
 		nni_msg_free(m0);
@@ -334,6 +335,7 @@ harness(void)
 		kquiesce();
 		CHECK(KDONE(0) && KRESULT(0) == NNG_ECANCELED && env_aio_completed(&uaio_at(0)) == 1, "cancelling the receive in progress aborts the read and completes the receive once with ECANCELED");
 		CHECK(nni_aio_get_msg(&uaio_at(0)) == NULL, "no message is delivered by a cancelled receive");
+		CHECK(s_recv_aio == NULL, "the read in progress has been aborted");
 		WITNESS("receive in progress cancelled");
 #endif
 		CHECK(env_msg_live == live0, "no partially received message is leaked");
